@@ -72,7 +72,8 @@ func (f *StarvingMutex) RLock() {
 		f.readerCond.Wait()
 	}
 
-	if debug.GetEnabled() {
+	// (the debug mode could have been switched on or off while we were waiting)
+	if doneChan != nil {
 		close(doneChan)
 	}
 
@@ -129,7 +130,8 @@ func (f *StarvingMutex) Lock() {
 	for !f.canWrite() {
 		f.writerCond.Wait()
 	}
-	if debug.GetEnabled() {
+	// (the debug mode could have been switched on or off while we were waiting)
+	if doneChan != nil {
 		close(doneChan)
 	}
 	f.pendingWriters--
